@@ -32,7 +32,9 @@ def write_env(name, obj):
     return path
 
 
-_verdict_re = re.compile(r'^<<"(REJECT|NOTE|SILENT|CRASH)", (\d+)(?:, (.*))?>>$')
+# TLC's pretty printer wraps a tuple over several lines when it is longer than 80 characters and every element fits:
+# accept both  <<"TAG", 12, "detail">>  and  << "TAG",\n   12,\n   "detail" >>
+_verdict_re = re.compile(r'^<<\s*"(REJECT|NOTE|SILENT|CRASH|BADGROUP)",\s*(\d+)(?:,\s*(.*?))?\s*>>$', re.M | re.S)
 
 
 def judge(events, module, env_path, shards=8, tag="rj", timeout=3600, min_per_shard=300, xmx="4g", extra_env=None):
@@ -57,10 +59,8 @@ def judge(events, module, env_path, shards=8, tag="rj", timeout=3600, min_per_sh
             log(r.stdout[-3000:])
             raise vlib.ToolError("judge %s did not consume every line (%d of %d)" % (module, r.distinct - 1, hi - lo))
         out = {}
-        for ln in r.stdout.splitlines():
-            m = _verdict_re.match(ln)
-            if m:
-                out.setdefault(lo + int(m.group(2)) - 1, []).append((m.group(1), m.group(3) or ""))
+        for m in _verdict_re.finditer(r.stdout):
+            out.setdefault(lo + int(m.group(2)) - 1, []).append((m.group(1), m.group(3) or ""))
         os.unlink(path)
         return out, r
 
